@@ -117,7 +117,7 @@ func (r *Router) Match(method, path string) (route *Route, ps Params, alm []stri
 // alm - allowed request methods
 func (r *Router) QuickMatch(method, path string) (route *Route, ps Params, alm []string) {
 	if r.interceptAll != "" {
-		path = r.interceptAll
+		path = r.formatPath(r.interceptAll)
 	} else {
 		path = r.formatPath(path)
 	}
